@@ -59,7 +59,7 @@ def run_batch(cases, timeout=None, nproc=4):
 
 
 # --------------------------------------------------------------------------- generators
-def gen_nodes(rng, nmin=2, nmax=6, maxjobs=10):
+def gen_nodes(rng, nmin=2, nmax=6, maxjobs=10, zero_p=0.06):
     """Random DAG: 2-6 nodes, each with <=3 predecessors among the earlier ones, some split 1-3 ways."""
     while True:
         n = rng.randint(nmin, nmax)
@@ -72,6 +72,8 @@ def gen_nodes(rng, nmin=2, nmax=6, maxjobs=10):
             else:
                 preds = sorted(rng.sample(cand, min(len(cand), rng.choice([1, 1, 1, 2, 2, 3]))))
             split = rng.choice([None, None, None, 1, 2, 2, 3])
+            if rng.random() < zero_p:
+                split = 0            # a node with ZERO jobs (split over an empty list)
             nodes.append(dict(id=i, preds=preds, split=split))
         # relabel so that node ids are not in definition order everywhere
         if sum(njobs(nd) for nd in nodes) <= maxjobs:
@@ -124,15 +126,15 @@ def gen_oracle(rng, nj, multi=0.2, visp=None):
     return steps
 
 
-def gen_fail(rng, nodes, p_any=0.5):
+def gen_fail(rng, nodes, p_any=0.5, sizes=(1, 1, 2)):
     jobs = all_jobs(nodes)
-    if rng.random() >= p_any:
+    if rng.random() >= p_any or not jobs:
         return []
-    return [list(j) for j in rng.sample(jobs, min(len(jobs), rng.choice([1, 1, 2])))]
+    return [list(j) for j in rng.sample(jobs, min(len(jobs), rng.choice(list(sizes))))]
 
 
 def gen_k(rng, nj):
-    return rng.choice([None] + list(range(1, nj + 1)))
+    return rng.choice([None] + list(range(1, max(nj, 1) + 1)))
 
 
 # --------------------------------------------------------------------------- encoders
@@ -213,7 +215,15 @@ def enc_outputs(outputs, nodes, order_nodes):
     for nd in order_nodes:
         o = val[nd["id"]]
         vals = o if nd["split"] is not None else [o]
-        out.append(coqio.lst(["(Some %s)" % enc_tv(u, byid) for u in vals]))
+        enc = []
+        for u in (vals if isinstance(vals, list) else [vals]):
+            try:
+                enc.append("(Some %s)" % enc_tv(u, byid))
+            except (ValueError, TypeError, KeyError):
+                enc.append("None")        # not the value of an executed job (e.g. [] for a job that never ran)
+        if nd["split"] is None and vals == []:
+            enc = ["None"]
+        out.append(coqio.lst(enc))
     return coqio.lst(out)
 
 
@@ -388,7 +398,7 @@ def nontrivial(case):
         sum(njobs(n) for n in case["nodes"]) >= 3
 
 
-TIES = {"async": "tie_async", "sync": "tie_sync", "rerun": "tie_rerun", "state": "tie_sched"}
+TIES = {"async": "tie_async", "sync": "tie_sync", "rerun": "tie_rerun", "state": "tie_sched", "coerce": "tie_sched"}
 NO_TIE = "(fun _ : case_t => true)"      # cf / rerun_gen / rerun_sync / rerun_cf / state_sync / state_cf: spec only
 
 
@@ -555,7 +565,7 @@ def replay_case(ctx, payload, spec_defs):
     m = case["mode"]
     terms = ["event_log (sync_of c)" if m == "sync" else ("event_log (warm_of c)" if m.startswith("rerun") else
                                                           "event_log (run_of c)"), "spec_ok c"]
-    tie = {"async": "tie_async c", "sync": "tie_sync c", "rerun": "tie_rerun c", "state": "tie_sched c"}.get(m)
+    tie = {k: v + " c" for k, v in TIES.items()}.get(m)
     if tie:
         terms.append(tie)
     vals = model_values(ctx, case, o, terms, spec_defs)
